@@ -22,6 +22,14 @@ def call_kinds(case):
     return [c.get("kind") for c in case.get("calls", [])]
 
 
+def _norm(o):
+    """the documented panic on an unresolvable $ref embeds the resolver's error text, which names whichever missing target
+    go-openapi/spec met first (map order): only the fact of that panic is compared"""
+    if isinstance(o, dict) and isinstance(o.get("panic"), str) and o["panic"].startswith("Invalid schema provided to SchemaValidator:"):
+        return dict(o, panic="Invalid schema provided to SchemaValidator: <resolver error>")
+    return o
+
+
 def compare(rows):
     """yields (case, call index, ref outcome, subject outcome) for differing calls, and trace breaches"""
     for r in rows:
@@ -30,7 +38,7 @@ def compare(rows):
             yield case, None, None, go, "harness"
             continue
         for i, (a, b) in enumerate(zip(go["ref"], go["subj"])):
-            if a != b:
+            if _norm(a) != _norm(b):
                 yield case, i, a, b, "outcome"
         if m.get("traceOk") is False:
             yield case, None, None, m.get("breach"), "trace"
